@@ -243,13 +243,26 @@ def r11_3(model: Model, rep: Report) -> None:
     helpers = c10.find_flatteners(model, scratch)  # verified re-yielders of factors (whatever they are called); their own obligations are C10's
 
     def post(v):
+        # flat(L): the factors of every element of the sequence L, nested products expanded;  flat1(x): the factors of ONE expression
+        # (x itself unless it is a product).  flat(x.expressions) is flat1(x) -- only a Product has .expressions
         def f(s_):
             if s_[0] in ("call", "recurse") and isinstance(s_[1], str):
                 if s_[1] in c10.FLATTENERS:
                     arg = (list(s_[2]) + [x for _, x in s_[3]])[0]
-                    return ("flat", arg if c10.FLATTENERS[s_[1]] == "seq" else ("attr", arg, "expressions"))
+                    kind = c10.FLATTENERS[s_[1]]
+                    if kind == "seq":
+                        return f(("flat", arg)) or ("flat", arg)
+                    return ("flat1", arg)
                 if s_[1] == "yvref.c11.flat":
-                    return ("flat", (list(s_[2]) + [x for _, x in s_[3]])[0])
+                    a_ = (list(s_[2]) + [x for _, x in s_[3]])[0]
+                    return f(("flat", a_)) or ("flat", a_)
+            if s_[0] == "flat" and len(s_) == 2 and s_[1][0] == "attr" and s_[1][2] == "expressions":
+                return ("flat1", s_[1][1])
+            if s_[0] == "flat" and len(s_) == 2 and s_[1][0] in ("listlit", "tuplelit") and len(s_[1][1]) == 1 and s_[1][1][0][0] != "star":
+                return ("flat1", s_[1][1][0])
+            if s_[0] == "comp" and s_[1] in ("list", "gen") and len(s_[3]) == 2 and s_[2] == s_[3][1][0] and not s_[3][1][2] and s_[3][1][1][0] == "flat1":
+                # [f for s in S for f in flat1(g(s))]  =  flat([g(s) for s in S])
+                return ("flat", ("comp", s_[1], s_[3][1][1][1], (s_[3][0],)))
             return None
         return mapterm(v, f)
 
